@@ -24,6 +24,7 @@ namespace MW.Lemmas.RemoveInterleave
 open MW MW.Model.Ledger MW.Model.Remove MW.Spec.Chain MW.Spec.Books MW.Lemmas.Ledger MW.Lemmas.RemoveProj
   MW.Lemmas.RemoveInv MW.Lemmas.RemoveMain MW.Lemmas.RemoveUpper MW.Lemmas.RemoveJoin MW.Lemmas.RemoveGlue
   MW.Lemmas.RemoveFlagged MW.Lemmas.ImportReorg MW.Lemmas.ImportJoin MW.Lemmas.RemoveChar MW.Lemmas.RemoveStep
+  MW.Lemmas.RemoveBooks
 
 -- ------------------------------------------------------------------ (a) follower activity, then the worker loop
 
@@ -41,5 +42,313 @@ theorem flagged_run_projects {limit : Nat} {c : Ctx} {w : Wid} {addrs : List Add
   have hnr := fj_notReady hFJ c.wallets
   obtain ⟨k, hk, hS, _, _, _⟩ := hFJ
   exact run_projects_U limit H (upperOK_join H hKN hk) ws' hws n (scanJS_to_midU H hKN hk hS hnr hn hp) hrun
+
+-- ------------------------------------------------------------------ congruence: the context's node, the pending side
+
+/-- `ScanJS` reads the parameters, the keystore table and the wallet list of the context only -/
+theorem scanJS_ctx {c c' : Ctx} {w : Wid} {s : Store} {X : List Block} {k : Nat} (hp : c'.p = c.p) (ho : c'.own = c.own)
+    (hw : c'.wallets = c.wallets) (h : ScanJS c w s X k) : ScanJS c' w s X k := by
+  obtain ⟨p, own, ws, nd⟩ := c
+  obtain ⟨p', own'', ws'', nd'⟩ := c'
+  simp only at hp ho hw
+  subst hp ho hw
+  exact ⟨h.agree, h.blocks, h.txpos, h.bal, h.balR, h.sync, h.syncedTo⟩
+
+theorem fj_ctx {c c' : Ctx} {w : Wid} {s : Store} {X : List Block} (hp : c'.p = c.p) (ho : c'.own = c.own)
+    (hw : c'.wallets = c.wallets) (h : FJ c w s X) : FJ c' w s X := by
+  obtain ⟨k, hk, hS, hst, hAR, hne⟩ := h
+  refine ⟨k, hk, scanJS_ctx hp ho hw hS, hst, ?_, ?_⟩
+  · rw [ho, hw]; exact hAR
+  · rw [hw]; exact hne
+
+/-- `ScanJS` reads the mined buckets, the balances, the sync table and the status only -/
+theorem scanJS_congr {c : Ctx} {w : Wid} {s s' : Store} {X : List Block} {k : Nat} (h : ScanJS c w s X k)
+    (m : MinedEq s s') : ScanJS c w s' X k := by
+  have hrec : hasRec s' = hasRec s := by funext key; unfold hasRec; rw [m.txrecs]
+  refine ⟨⟨?_, ?_, ?_, ?_, ?_⟩, ?_, ?_, ?_, ?_, ?_, ?_⟩
+  · intro w' tx idx; rw [m.unspent]; exact h.agree.unspent w' tx idx
+  · intro key; rw [m.credits]; exact h.agree.credits key
+  · intro key; rw [m.debits]; exact h.agree.debits key
+  · intro key; rw [m.game]; exact h.agree.game key
+  · intro key; rw [m.txrecs]; exact h.agree.txrecs key
+  · intro hh; show AMap.get s'.blocks hh = blockRecOf (hasRec s') X hh; rw [m.blocks, hrec]; exact h.blocks hh
+  · intro key loc hl; rw [m.txrecs] at hl; exact h.txpos key loc hl
+  · rw [m.balance]; exact h.bal
+  · intro w' hw' hr; rw [m.balance]; rw [readyWallets_congr m.status] at hr; exact h.balR w' hw' hr
+  · intro hh; rw [m.sync]; exact h.sync hh
+  · rw [m.syncedTo]; exact h.syncedTo
+
+theorem fj_congr {c : Ctx} {w : Wid} {s s' : Store} {X : List Block} (h : FJ c w s X) (m : MinedEq s s') :
+    FJ c w s' X := by
+  obtain ⟨k, hk, hS, hst, hAR, hne⟩ := h
+  refine ⟨k, hk, scanJS_congr hS m, by rw [m.status]; exact hst, ?_, ?_⟩
+  · rw [readyWallets_congr m.status]; exact hAR
+  · rw [readyWallets_congr m.status]; exact hne
+
+/-- the unconfirmed path writes pending buckets only -/
+theorem minedEq_recvTx (c : Ctx) (s : Store) (v : Vol) (t : Tx) : MinedEq s (recvTx c s v t).1 := by
+  have h := MW.Lemmas.PendHist.recvTx_mined c s v t
+  simp only [MW.Lemmas.LedgerPending.minedOf, Prod.mk.injEq] at h
+  obtain ⟨h1, h2, h3, h4, h5, h6, h7, h8, h9, h10, h11⟩ := h
+  exact ⟨h1, h2, h3, h4, h5, h6, h7, h8, h9, h10, h11⟩
+
+theorem recvTx_best (c : Ctx) (s : Store) (v : Vol) (t : Tx) : (recvTx c s v t).2.1.best = v.best := by
+  unfold recvTx
+  split
+  · rfl
+  · dsimp only
+    split
+    · rfl
+    · rfl
+    · split <;> rfl
+
+-- ------------------------------------------------------------------ (b) the two phases
+
+/-- the standing hypotheses of a removal: `own'` is the keystore table without `w`, `addrs` are exactly the script hashes
+    `w` manages -/
+structure Static (c : Ctx) (w : Wid) (addrs : List Addr) (own' : Own) : Prop where
+  minus : OwnMinus c.own own' w
+  managed : ∀ a, addrs.contains a = isW c.own w a
+  ne : addrs ≠ []
+  keys : KeysNodup c.own
+
+/-- what a state of a history knows about the chain the follower was last told about -/
+structure ChainFacts (c : Ctx) (G : Block) (x : ISt) : Prop where
+  best : x.v.best = tipMeta x.node.chain
+  fin : x.fin = false
+  good : GoodChain x.node.chain
+  valid : ChainValid c.own x.node.chain
+  genesis : x.node.chain[0]? = some G
+  known : ∀ y ∈ x.node.chain, AMap.get x.node.known y.id = some y
+
+/-- **phase 1** — no removal step has run yet: the store follows the chain with `w` flagged -/
+structure Phase1 (c : Ctx) (w : Wid) (G : Block) (x : ISt) : Prop where
+  fj : FJ { c with node := x.node } w x.s x.node.chain
+  nodup : KeysNodup x.s.credits
+  cf : ChainFacts c G x
+
+/-- the real store `s` is the ghost store `g` minus some credits of `ads`, some debits and some tx records: the
+    id-keyed buckets and the sync table are identical (field for field `MW.Lemmas.RemoveSim.Sub`) -/
+structure SubG (ads : List Addr) (g s : Store) : Prop where
+  unspent : s.unspent = g.unspent
+  game : s.game = g.game
+  balance : s.balance = g.balance
+  sync : s.sync = g.sync
+  syncedTo : s.syncedTo = g.syncedTo
+  status : s.status = g.status
+  addrs : s.addrs = g.addrs
+  credits : ∀ k, AMap.get s.credits k = AMap.get g.credits k ∨
+    (AMap.get s.credits k = none ∧ ∃ cr, AMap.get g.credits k = some cr ∧ ads.contains cr.sh = true)
+  debits : ∀ k, AMap.get s.debits k = AMap.get g.debits k ∨ AMap.get s.debits k = none
+  txrecs : ∀ k, AMap.get s.txrecs k = AMap.get g.txrecs k ∨ AMap.get s.txrecs k = none
+
+theorem SubG.refl (ads : List Addr) (s : Store) : SubG ads s s :=
+  ⟨rfl, rfl, rfl, rfl, rfl, rfl, rfl, fun _ => Or.inl rfl, fun _ => Or.inl rfl, fun _ => Or.inl rfl⟩
+
+/-- the ghost store of a removal in progress: the store as it would be without the removal steps so far — it follows
+    `node`'s chain with `w` flagged at ghost height `k` -/
+structure GhostOK (c : Ctx) (w : Wid) (node : Node) (g : Store) (k : Nat) : Prop where
+  len : k + 1 ≤ node.chain.length
+  scan : ScanJS { c with node := node } w g node.chain k
+  flag : AMap.get g.status w = some ⟨none, true⟩
+  allReady : AllReady (ownR c.own w) (readyWallets g c.wallets)
+  nonempty : (readyWallets g c.wallets).isEmpty = false
+  nodup : KeysNodup g.credits
+
+/-- **phase 2** — removal in progress: a ghost store `g` follows the chain with `w` flagged at ghost height `k`, the real
+    store is `g` minus some records of `w` and satisfies the in-progress invariant relative to the joined book -/
+def Phase2 (c : Ctx) (w : Wid) (addrs : List Addr) (own' : Own) (G : Block) (x : ISt) : Prop :=
+  ∃ g k, GhostOK c w x.node g k ∧ SubG addrs g x.s ∧
+    MidC { c with node := x.node } w addrs own' x.s x.node.chain
+      (joinBookK { c with node := x.node } w own' x.node.chain k) ∧
+    ChainFacts c G x
+
+theorem remHyp_of {c : Ctx} {w : Wid} {addrs : List Addr} {own' : Own} {G : Block} {x : ISt}
+    (hS : Static c w addrs own') (hcf : ChainFacts c G x) :
+    RemHyp { c with node := x.node } w addrs own' x.node.chain :=
+  ⟨hS.minus, hS.managed, hS.ne, hcf.valid, hcf.good.heights, hcf.known⟩
+
+-- ------------------------------------------------------------------ (c) the events
+
+section
+variable {limit : Nat} {c : Ctx} {w : Wid} {addrs : List Addr} {own' : Own} {G : Block} {x x' : ISt}
+
+theorem istep_rem (h : istep limit c w addrs x .rem = some x') :
+    x.fin = false ∧ ∃ o, removeStep limit { c with node := x.node } w addrs x.s = some o ∧
+      x' = { x with s := o.s, v := removeMempool x.v o.removedTx, fin := o.finish } := by
+  simp only [istep] at h
+  split at h
+  · cases h
+  · rename_i hf
+    split at h
+    · cases h
+    · rename_i o ho
+      injection h with h
+      exact ⟨by simpa using hf, o, ho, h.symm⟩
+
+theorem istep_recv {t : Tx} (h : istep limit c w addrs x (.recv t) = some x') :
+    x' = { x with s := (recvTx { c with node := x.node } x.s x.v t).1,
+                  v := (recvTx { c with node := x.node } x.s x.v t).2.1 } := by
+  simp only [istep] at h
+  split at h
+  · cases h
+  · split at h
+    · injection h with h; exact h.symm
+    · cases h
+
+theorem istep_restart {v : Vol} (h : istep limit c w addrs x (.restart v) = some x') : x' = { x with v := v } := by
+  simp only [istep] at h
+  split at h
+  · cases h
+  · injection h with h; exact h.symm
+
+/-- **a tip notification before the first removal step** (extension or reorganisation of any depth): the database
+    transaction succeeds and the store follows the announced chain, `w` still flagged -/
+theorem phase1_notify {n : Node} {b : Block} (hKN : KeysNodup c.own) (hP : Phase1 c w G x)
+    (hN : NodeOK c.own G x.node.known n b) (hinj : IdInj (x.node.chain ++ n.chain))
+    (hg0 : b.height = 0 → b.prev ≠ x.v.best.hash) :
+    ∃ x', istep limit c w addrs x (.notify n b) = some x' ∧ Phase1 c w G x' := by
+  have hne : n.chain ≠ [] := hN.good.nonempty
+  have hlen : n.chain.length ≠ 0 := fun h => hne (List.eq_nil_of_length_eq_zero h)
+  have hlast : n.chain[n.chain.length - 1]? = some b := by rw [← List.getLast?_eq_getElem?]; exact hN.tip
+  have hbh : b.height = n.chain.length - 1 := hN.good.heights _ _ hlast
+  have hb : n.chain[b.height]? = some b := by rw [hbh]; exact hlast
+  have htake : n.chain.take (b.height + 1) = n.chain := List.take_of_length_le (by omega)
+  have hI : FJ { c with node := n } w x.s x.node.chain :=
+    fj_ctx (c := { c with node := x.node }) rfl rfl rfl hP.fj
+  obtain ⟨s', v', hpb, hFJ', hv'⟩ := fj_processBlock (c := { c with node := n }) hKN hN.good hP.cf.good
+    (by rw [hP.cf.genesis]; exact hN.genesis.symm) hinj hN.valid hP.cf.valid
+    (fun y hy => hN.grows _ _ (hP.cf.known y hy)) hI hb hP.cf.best (by rw [← hP.cf.best]; exact hg0)
+  rw [htake] at hFJ' hv'
+  have hn' : KeysNodup s'.credits := by
+    have := MW.Lemmas.LedgerWFCred.credNodup_processBlock (c := { c with node := n }) (v := x.v) (b := b) hP.nodup
+    rw [hpb] at this; exact this
+  refine ⟨{ x with s := s', v := v', node := n }, ?_, ⟨hFJ', hn', ⟨hv', hP.cf.fin, hN.good, hN.valid, hN.genesis, hN.known⟩⟩⟩
+  simp only [istep, hP.cf.fin, hpb, Bool.false_eq_true, if_false, if_true]
+
+/-- **an unconfirmed transaction before the first removal step**, whatever the wallet answers -/
+theorem phase1_recv {t : Tx} (hP : Phase1 c w G x) (h : istep limit c w addrs x (.recv t) = some x') :
+    Phase1 c w G x' := by
+  rw [istep_recv h]
+  have m := minedEq_recvTx { c with node := x.node } x.s x.v t
+  refine ⟨fj_congr hP.fj m, ?_, ⟨?_, hP.cf.fin, hP.cf.good, hP.cf.valid, hP.cf.genesis, hP.cf.known⟩⟩
+  · show KeysNodup (recvTx _ x.s x.v t).1.credits
+    rw [m.credits]; exact hP.nodup
+  · show (recvTx _ x.s x.v t).2.1.best = _
+    rw [recvTx_best]; exact hP.cf.best
+
+/-- **an unconfirmed transaction between two removal steps**: no mined bucket changes, the ghost stays -/
+theorem phase2_recv {t : Tx} (hP : Phase2 c w addrs own' G x) (h : istep limit c w addrs x (.recv t) = some x') :
+    Phase2 c w addrs own' G x' := by
+  rw [istep_recv h]
+  obtain ⟨g, k, hG, hSub, hM, hcf⟩ := hP
+  have m := minedEq_recvTx { c with node := x.node } x.s x.v t
+  refine ⟨g, k, hG, ?_, ?_, ⟨?_, hcf.fin, hcf.good, hcf.valid, hcf.genesis, hcf.known⟩⟩
+  · refine ⟨m.unspent.trans hSub.unspent, m.game.trans hSub.game, m.balance.trans hSub.balance,
+      m.sync.trans hSub.sync, m.syncedTo.trans hSub.syncedTo, m.status.trans hSub.status, m.addrs.trans hSub.addrs,
+      ?_, ?_, ?_⟩
+    · intro key; show AMap.get (recvTx _ x.s x.v t).1.credits key = _ ∨ (AMap.get (recvTx _ x.s x.v t).1.credits key = none ∧ _)
+      rw [m.credits]; exact hSub.credits key
+    · intro key; show AMap.get (recvTx _ x.s x.v t).1.debits key = _ ∨ AMap.get (recvTx _ x.s x.v t).1.debits key = none
+      rw [m.debits]; exact hSub.debits key
+    · intro key; show AMap.get (recvTx _ x.s x.v t).1.txrecs key = _ ∨ AMap.get (recvTx _ x.s x.v t).1.txrecs key = none
+      rw [m.txrecs]; exact hSub.txrecs key
+  · exact midC_congr hM m.credits m.debits m.unspent m.game m.txrecs m.blocks m.balance m.sync m.syncedTo m.status
+  · show (recvTx _ x.s x.v t).2.1.best = _
+    rw [recvTx_best]; exact hcf.best
+
+/-- **a restart of the follower** (its volatile state is rebuilt; the best block it reports is the stored one) -/
+theorem phase1_restart {v : Vol} (hv : v.best = x.v.best) (hP : Phase1 c w G x)
+    (h : istep limit c w addrs x (.restart v) = some x') : Phase1 c w G x' := by
+  rw [istep_restart h]
+  exact ⟨hP.fj, hP.nodup, ⟨hv.trans hP.cf.best, hP.cf.fin, hP.cf.good, hP.cf.valid, hP.cf.genesis, hP.cf.known⟩⟩
+
+theorem phase2_restart {v : Vol} (hv : v.best = x.v.best) (hP : Phase2 c w addrs own' G x)
+    (h : istep limit c w addrs x (.restart v) = some x') : Phase2 c w addrs own' G x' := by
+  rw [istep_restart h]
+  obtain ⟨g, k, hG, hSub, hM, hcf⟩ := hP
+  exact ⟨g, k, hG, hSub, hM, ⟨hv.trans hcf.best, hcf.fin, hcf.good, hcf.valid, hcf.genesis, hcf.known⟩⟩
+
+theorem phase_restart {v : Vol} (hv : v.best = x.v.best) (h : istep limit c w addrs x (.restart v) = some x') :
+    (Phase1 c w G x → Phase1 c w G x') ∧ (Phase2 c w addrs own' G x → Phase2 c w addrs own' G x') :=
+  ⟨fun hP => phase1_restart hv hP h, fun hP => phase2_restart hv hP h⟩
+
+/-- one RemoveRelevantTx keeps "the ghost minus some records of `addrs`" -/
+theorem subG_step {g s : Store} {o : StepOut} (hne : addrs ≠ []) (hG : SubG addrs g s) (hn : KeysNodup s.credits)
+    (h : removeRelevantTx limit c s addrs = some o) : SubG addrs g o.s := by
+  obtain ⟨DEL, HOF, ERA, hR⟩ := rrt_char limit c s addrs o hne h
+  have hcore := hR.core
+  simp only [core, Prod.mk.injEq] at hcore
+  obtain ⟨hu, ha, hg, _, hb, hst, hsy, hsyt⟩ := hcore
+  refine ⟨hu.trans hG.unspent, hg.trans hG.game, hb.trans hG.balance, hsy.trans hG.sync, hsyt.trans hG.syncedTo,
+    hst.trans hG.status, ha.trans hG.addrs, ?_, ?_, ?_⟩
+  · intro k
+    rw [hR.credits k]
+    by_cases hk : k ∈ DEL.map (·.1)
+    · rw [if_pos hk]
+      obtain ⟨e, he, rfl⟩ := List.mem_map.1 hk
+      obtain ⟨hmem, hsh⟩ := hR.sub e he
+      have hget : AMap.get s.credits e.1 = some e.2 := (mem_iff_get_of_nodup hn e.1 e.2).1 hmem
+      rcases hG.credits e.1 with h1 | ⟨h1, _⟩
+      · exact Or.inr ⟨rfl, e.2, by rw [← h1]; exact hget, hsh⟩
+      · rw [hget] at h1; cases h1
+    · rw [if_neg hk]; exact hG.credits k
+  · intro k
+    rw [hR.debits k]
+    split
+    · exact Or.inr rfl
+    · exact hG.debits k
+  · intro k
+    rw [hR.txrecs k]
+    split
+    · exact Or.inr rfl
+    · exact hG.txrecs k
+
+/-- a removal step from the in-progress invariant (relative to the joined book of the ghost height): it either parks
+    (`Phase2`, same ghost) or finishes (C01's invariant for the table without `w`) -/
+theorem rem_core {g : Store} {k : Nat} (hS : Static c w addrs own') (hcf : ChainFacts c G x)
+    (hG : GhostOK c w x.node g k) (hSub : SubG addrs g x.s)
+    (hM : MidU { c with node := x.node } w addrs own' x.s x.node.chain
+      (joinBookK { c with node := x.node } w own' x.node.chain k))
+    (h : istep limit c w addrs x .rem = some x') :
+    (x'.fin = false → Phase2 c w addrs own' G x') ∧
+    (x'.fin = true → ∀ ws', (∀ y ∈ ws', y ∈ c.wallets) →
+      Inv { c with own := own', wallets := ws', node := x'.node } x'.s x'.node.chain) := by
+  obtain ⟨_, o, ho, rfl⟩ := istep_rem h
+  have H := remHyp_of hS hcf
+  have HU := upperOK_join H hS.keys hG.len
+  constructor
+  · intro hf
+    have hf' : o.finish = false := hf
+    have hM' := parked_step_U limit H HU hM ho hf'
+    have hr := removeStep_parked ho hf'
+    exact ⟨g, k, hG, subG_step hS.ne hSub hM.nodup hr, midC_of_midU hM',
+      ⟨hcf.best, hf', hcf.good, hcf.valid, hcf.genesis, hcf.known⟩⟩
+  · intro hf ws' hws
+    have hf' : o.finish = true := hf
+    exact finish_projects_U limit H HU hM ws' hws ho hf'
+
+/-- **the first removal step** -/
+theorem phase1_rem (hS : Static c w addrs own') (hP : Phase1 c w G x) (hp : PendOK addrs x.s x.node.chain)
+    (h : istep limit c w addrs x .rem = some x') :
+    (x'.fin = false → Phase2 c w addrs own' G x') ∧
+    (x'.fin = true → ∀ ws', (∀ y ∈ ws', y ∈ c.wallets) →
+      Inv { c with own := own', wallets := ws', node := x'.node } x'.s x'.node.chain) := by
+  have hnr := fj_notReady hP.fj c.wallets
+  obtain ⟨k, hk, hSc, hst, hAR, hne⟩ := hP.fj
+  have H := remHyp_of hS hP.cf
+  exact rem_core hS hP.cf ⟨hk, hSc, hst, hAR, hne, hP.nodup⟩ (SubG.refl addrs x.s)
+    (scanJS_to_midU H hS.keys hk hSc hnr hP.nodup hp) h
+
+/-- **a later removal step** -/
+theorem phase2_rem (hS : Static c w addrs own') (hP : Phase2 c w addrs own' G x) (hp : PendOK addrs x.s x.node.chain)
+    (h : istep limit c w addrs x .rem = some x') :
+    (x'.fin = false → Phase2 c w addrs own' G x') ∧
+    (x'.fin = true → ∀ ws', (∀ y ∈ ws', y ∈ c.wallets) →
+      Inv { c with own := own', wallets := ws', node := x'.node } x'.s x'.node.chain) := by
+  obtain ⟨g, k, hG, hSub, hM, hcf⟩ := hP
+  exact rem_core hS hcf hG hSub (midU_of_midC hM hp) h
+
+end
 
 end MW.Lemmas.RemoveInterleave
